@@ -298,6 +298,10 @@ func VxC04SameProcess() {
 func VxC04Reset() {
 	dir := vx.TempDir()
 	db := NewDB(dir + "/app.db")
+	vx.FSWriteFile(dir+"/app.db", []byte("SQLite format 3\x00"))
+	vx.FSWriteFile(dir+"/app.db-wal", make([]byte, WALHeaderSize))
+	vxNewSQLEnv(false)
+	defer func() { vxSQLHandler = nil }()
 	c := &vxFaultClient{}
 	n := vx.Choose("remote", 1, 3)
 	var local []*vxLTX
@@ -316,10 +320,30 @@ func VxC04Reset() {
 		r.SetPos(ltx.Pos{TXID: ltx.TXID(n)})
 	}
 	ctx := context.Background()
-	vx.Assert("reset-succeeds", db.ResetLocalState(ctx) == nil)
-	// the next database sync starts over: a snapshot at whatever TXID the local state implies
+	// the process has been running: the database is initialised (read lock held)
+	db.Replica.MonitorEnabled = false
+	db.MonitorInterval = 0
+	if err := db.init(ctx); err != nil {
+		panic(err)
+	}
+	// the replica may fail transiently while the reset fetches its baseline; the
+	// monitor logs a failed reset and carries on, so does the harness
+	c.faulty = vx.Fault("replicaFlakyDuringReset")
+	rerr := db.ResetLocalState(ctx)
+	if !c.faulty {
+		vx.Assert("reset-succeeds", rerr == nil)
+	}
+	c.faulty = false
+	// the next database sync starts over: a snapshot at whatever TXID the real
+	// executor set-up (init on first use, then the position) says comes next
+	db.Replica.MonitorEnabled = false
+	db.MonitorInterval = 0
+	exec, eerr := db.newSyncExecutor(ctx)
+	if eerr != nil || exec == nil {
+		return // loud: the round fails, nothing is acknowledged
+	}
 	pos, perr := db.Pos()
-	vx.Assert("position-after-reset-readable", perr == nil)
+	vx.Assert("position-after-reset-readable", perr == nil && pos.TXID == exec.pos.TXID)
 	next := pos.TXID + 1
 	snap := &vxLTX{level: 0, min: next, max: next, commit: 2, ts: 5000, pages: []vxPg{{1, 77}, {2, 78}}}
 	vx.FSWriteFile(db.LTXPath(0, next, next), vxEncodeLTX(snap))
